@@ -106,10 +106,10 @@ def removable(lines):
         if s.startswith('local'):
             init = 1
             continue
-        if init == 1:
-            # register initialisation block ends with "mov t3, 0"
-            if s == 'mov t3, 0':
-                init = 2
+        if 1 <= init < 2:
+            # register initialisation block ends with the second "mov t0, 0"
+            if s == 'mov t0, 0':
+                init += 0.5
             continue
         if KEEP_RE.match(l):
             continue
